@@ -678,7 +678,8 @@ EDITS = [e_empty_references, e_inside_text_element, e_more_names, e_dup_type, e_
 # the ways a schema document reaches the loader, in rotation: the rules
 # are the same for all of them
 WAYS = ["string", "path", "string", "url", "binary-file", "loader-object",
-        "string", "text-file", "loader-twice"]
+        "string", "text-file", "loader-twice", "bytes-utf16",
+        "bytes-latin1"]
 LOAD_N = [0]
 WAY_COUNT = collections.Counter()
 LAST_WAY = [None]
@@ -690,6 +691,15 @@ def load_by(xml, way):
     import ZConfig.loader
     if way == "string":
         return ZConfig.loadSchemaFile(io.StringIO(xml))
+    if way == "bytes-utf16":
+        return ZConfig.loadSchemaFile(io.BytesIO(xml.encode("utf-16")))
+    if way == "bytes-latin1":
+        try:
+            return ZConfig.loadSchemaFile(io.BytesIO((
+                '<?xml version="1.0" encoding="iso-8859-1"?>\n' +
+                xml).encode("latin-1")))
+        except UnicodeEncodeError:
+            return ZConfig.loadSchemaFile(io.StringIO(xml))
     path = os.path.join(LIB_DIR[0] or ".", "document under test.xml")
     with open(path, "wb") as f:
         f.write(xml.encode("utf-8"))
